@@ -1063,7 +1063,7 @@ class Parser(ABC):
             for index, model_field in enumerate(model.fields[:]):
                 data_type = model_field.data_type
                 if (
-                    not model_field.original_name  # noqa: PLR0916
+                    model_field.original_name is None  # noqa: PLR0916
                     or data_type.data_types
                     or data_type.reference
                     or data_type.type
